@@ -586,7 +586,7 @@ func (t DateTime) ISOWeek() int {
 }
 
 func (t DateTime) weekNumber(firstWeekday int) int {
-	yday := t.YearDay()
+	yday := t.YearDay() - 1 // zero-based, like tm_yday in the strftime formula below
 	wday := t.WeekdayFromSunday()
 
 	if firstWeekday == 1 {
